@@ -66,6 +66,8 @@ def run(prop, tier, seed):
             nref = [5] if quick else [6, 14, 24]
             if quick and exact == 0 and (p, d) == ("Dirichlet", "UnitSquare"):
                 nref = [5, 14]       # one deeper mesh (non-adjacent slabs, level gaps)
+            if exact == 0 and (p, d) in (("Dirichlet", "UnitSquare"), ("MildSingular", "Circle"), ("Smooth", "PiSquare")):
+                nref = nref + [-1]   # slab-graded mesh (nested space intervals in non-adjacent slabs)
             for n in nref:
                 if quick and (exact == 1 and d in ("Circle",)):
                     continue
